@@ -136,6 +136,10 @@ func (g *gen) recvOracle(b blobT, kinds []string, order []int, late string, out 
 	// what the write replicas really hold now / held at return (the answer's held= list was computed
 	// from the real sub-stores with a content comparison)
 	heldStr := strings.Fields(out[strings.Index(out, "held=")+5:])[0]
+	if strings.HasSuffix(out, " uploads-never-finished") {
+		g.fail("recv-upload-goroutines-never-finish", "", "every upload goroutine ends once its replica has answered", out)
+		out = strings.TrimSuffix(out, " uploads-never-finished")
+	}
 	if strings.HasSuffix(out, " unforced") {
 		// ReceiveBlob returned before it had started every upload: nothing to force, the answer and the
 		// holders at return are judged as they are
